@@ -264,4 +264,29 @@ func TestC12(t *testing.T) {
 	}
 	forCases(n, 121, "r", func(i int, r *rng, id string) { c12Rt(r, id) })
 	forCases(2*n, 122, "m", func(i int, r *rng, id string) { c12Msgpack(r, id) })
+	// what a node packs into its packets (gossip alone, or piggybacked on a ping/ack) is what the receiver unpacks
+	forCases(n/5, 123, "p", func(i int, r *rng, id string) { pktLeg("C12", r, id) })
+	forCases(n/3, 124, "a", func(i int, r *rng, id string) { c12AlivePort(r, id) })
+}
+
+// c12AlivePort: an alive message received on the packet path keeps its port - except that a message without a
+// port (or any message, on a receiver speaking a protocol version below 2) gets the receiver's configured port.
+func c12AlivePort(r *rng, id string) {
+	proto := uint8(1 + r.intn(5))
+	rcv, err := newCnode(ccfg{name: "R", proto: proto})
+	if err != nil {
+		return
+	}
+	defer rcv.m.Shutdown()
+	port := []uint16{0, 7946, 7947, 8301, 1, 65535}[r.intn(6)]
+	vsn := []uint8{1, 5, proto, 0, 0, 0}
+	body := ml.VerifEncodeAlive(uint32(1+r.intn(3)), "x", []byte{10, 0, 0, 5}, port, []byte("md"), vsn)
+	pan := ml.VerifHandleQueued(rcv.m, 4, body[1:], fromAddr)
+	got := -1
+	for _, nd := range ml.VerifSnapshotState(rcv.m).Nodes {
+		if nd.Name == "x" {
+			got = int(nd.Port)
+		}
+	}
+	emit("C12 aliveport id=%s proto=%d bind=7946 port=%d got=%d panic=%d", id, proto, port, got, b2i(pan))
 }
